@@ -1146,6 +1146,8 @@ from mlmverif.selfcheck import B, OK  # noqa: E402
 _S = 'chainables/courier_server.py'
 _U = 'utils/courier_utils.py'
 VARIANTS = [
+    OK('made-value-through-a-local', 'chainables/lazy_fns.py',
+       "    return maybe_lazy.result_()", "    made = maybe_lazy.result_()\n    return made"),
     OK('next-batch-queue-through-a-local', 'chainables/courier_server.py',
        "      result = self._generator.get_batch(batch_size, block=True)", "      prefetched = self._generator\n      result = prefetched.get_batch(batch_size, block=True)"),
     B('traced-list-key-becomes-a-tuple', 'chainables/lazy_fns.py',
